@@ -593,7 +593,7 @@ def r9(p, rep):
     for f in p.funcs.values():
         if f.module is not comp.module or f.cls is None:
             continue
-        tagged = [r for r in walk_no_nested(f.node) if isinstance(r, ast.Return) and isinstance(r.value, ast.BinOp) and isinstance(r.value.op, ast.Add) and _leading_tag(r.value) is not None]
+        tagged = [r for r in walk_no_nested(f.node) if isinstance(r, ast.Return) and r.value is not None and _leading_tag(r.value) is not None]
         if len(tagged) >= 2:
             cands.append((f, tagged))
     if len(cands) != 1:
@@ -630,11 +630,12 @@ def r9(p, rep):
     rep.add("C04.R9", f"{f.qualname}:kinds", f.loc, not missing, "list, tuple and dict each have their own arm" if not missing else f"no arm for {sorted(missing)}")
 
 
-def _leading_tag(binop):
-    x = binop
+def _leading_tag(e):
+    """(tag,) + tuple(...)   or   (tag, *ids...)  -> tag"""
+    x = e
     while isinstance(x, ast.BinOp) and isinstance(x.op, ast.Add):
         x = x.left
-    if isinstance(x, ast.Tuple) and len(x.elts) == 1 and isinstance(x.elts[0], ast.Constant):
+    if isinstance(x, ast.Tuple) and x.elts and isinstance(x.elts[0], ast.Constant) and (len(x.elts) == 1 and x is not e or any(isinstance(y, ast.Starred) for y in x.elts[1:])):
         return x.elts[0].value
     return None
 
